@@ -12,7 +12,7 @@ A side matches when all its required tokens are present.
 import re
 
 from .engine import op_place
-from .prims import comparisons, switch_edges_on_local, ok_return_blocks, agg_blocks, tree
+from .prims import comparisons, switch_edges_on_local, ok_return_blocks, agg_blocks, tree, near_origins
 
 STD = ("core::", "std::", "alloc::", "(")
 
@@ -500,3 +500,44 @@ def check_zip_lengths(rep, rule, prog, fn, done=None):
     rep.check(has_len_gate, rule, "zip-has-length-gate:%s" % fn.id.replace("warp_core::", ""), "%d zip site(s), lengths compared" % len(zips),
               "%s drives a comparison with `zip` (line %s) but never compares the two lengths: entries beyond the shorter sequence are accepted unchecked" % (
                   fn.name, [g.block_line(b) for g, b in zips][:2]), site=fn.loc())
+
+
+NARROWING = r"Iterator::(skip|take|step_by|skip_while|take_while|nth)$|Iterator>::(skip|take|step_by|skip_while|take_while|nth)$|::split_at$|::split_off$"
+
+
+def check_whole_sequence(rep, rule, prog, fn, done=None):
+    """A validation function examines the WHOLE sequence it is given.  A positional narrowing of an iterator or slice whose
+    amount is computed (`.skip(n)`, `.take(n)`, `[n..]`, `split_at(n)` with non-constant n) means part of the sequence is
+    accepted unexamined.  Constant amounts (`skip(1)` for adjacent pairs) carry no such obligation.  Returns the number of
+    sites examined so callers can report them."""
+    if done is not None:
+        if fn.id in done:
+            return 0
+        done.add(fn.id)
+    bodies = [fn] + [prog.fns[c] for c in prog.closures_in(fn.id)]
+    bad, n = [], 0
+    for g in bodies:
+        for bi, blk in enumerate(g.blocks):
+            t = blk["t"]
+            if t["t"] != "call":
+                continue
+            c = g.callee_of(t) or ""
+            amount = None
+            if re.search(NARROWING, c) and len(t["args"]) >= 2:
+                amount = t["args"][1]
+            elif re.search(r"Index(Mut)?<.*::index(_mut)?$", c) and len(t["args"]) >= 2:
+                pl = op_place(t["args"][1])
+                if pl is not None and "ops::Range" in str(g.locals[pl[0]]):
+                    amount = t["args"][1]
+            if amount is None:
+                continue
+            n += 1
+            if "k" in amount:
+                continue
+            near = {x for x in near_origins(g, amount)}
+            if near and all(x[0] == "const" for x in near):
+                continue
+            bad.append("%s:%s" % (c.rsplit("::", 1)[-1], g.block_line(bi)))
+    rep.check(not bad, rule, "whole-sequence:%s" % fn.id.replace("warp_core::", ""), "no computed positional narrowing (%d constant-amount site(s))" % n,
+              "%s narrows the sequence it validates by a computed amount (%s): the elements outside that window are accepted without being examined" % (fn.name, ", ".join(bad[:3])), site=fn.loc())
+    return n
